@@ -161,6 +161,17 @@ CHECKS["C16"] = (
     "detached by design of the fix d9b1ce6); dropout off; UMNN bisection inverse not differentiated.",
     "DESIGN.md section 3 C16")
 
+CHECKS["C19"] = (
+    "dtype-twin monitor: every float32 model next to deepcopy(model).double() on x and x.double(); agreement judged against a bound of "
+    "single-precision rounding plus input rounding amplified by the local conditioning measured on the float64 twin (item Jacobian; "
+    "multi-scale finite-difference sensitivity of the log-det); finiteness, no exception, result dtype = input dtype; dense element-wise "
+    "runs of the four spline functions (1e5-1e6 points per family/direction incl. knots)",
+    "All zoo families x moderate parameter policies (fresh, randn 0.3, randn 1) x |x| <= 6 / inside boxes, both directions, flows' "
+    "log_prob, BatchNorm in training mode on uncentred data (running statistics compared too).",
+    "Bound constants: 64 eps32 for the result, 16 eps32 |J| for outputs, 256 (1024 inverse) eps32 x sensitivity for log-dets; items with "
+    "cond(J) > 1e6 skipped; kink-tagged families sampled off their knots; composites get the sum of their parts' magnitudes.",
+    "DESIGN.md section 3 C19")
+
 PENDING_REASON = "check not built yet in this session (planned, see DESIGN.md section 3); not claimed until it exists and is calibrated"
 
 
